@@ -106,7 +106,8 @@ def sites(repo):
             line = text.count("\n", 0, m.start()) + 1
             skip = {"ERRORreport": 1, "ERRORreport_with_symbol": 2, "ERRORreport_with_line": 2}[m.group(1)]
             where = f"{base}:{line}"
-            out.append((where, args[0], [_kind(a, where, text[:m.start()]) for a in args[skip:]]))
+            out.append((where, args[0], [_kind(a, where, text[:m.start()]) for a in args[skip:]],
+                        [re.sub(r"\s+", "", a) for a in args[skip - 1:]] if skip == 2 else [""] + [re.sub(r"\s+", "", a) for a in args[skip:]]))
     if len(out) < 60:
         raise ValueError(f"only {len(out)} diagnostic call sites found")
     return out
@@ -118,6 +119,12 @@ def extract(repo):
          "namespace StepModel.Generated.ReportSites", "",
          "/-- (source position, ErrorCode name, kinds of the arguments passed: 0 = string, 1 = char, 2 = int, 3 = real) -/",
          "def sites : List (String × String × List Nat) := ["]
-    L.append(",\n".join(f'  ("{w}", "{c}", [{", ".join(str(k) for k in ks)}])' for w, c, ks in ss) + "]")
+    L.append(",\n".join(f'  ("{w}", "{c}", [{", ".join(str(k) for k in ks)}])' for w, c, ks, _ in ss) + "]")
+    esc = lambda t: t.replace("\\", "\\\\").replace('"', '\\"')
+    two = [(w.split(":")[0], c, ex) for w, c, ks, ex in ss if len(ks) >= 2 and len(set(ks)) < len(ks)]
+    L += ["", "/-- the sites that pass two or more arguments of one kind — where `sites` cannot tell a swap: (file, ErrorCode name, the position",
+          "    expression (symbol / line; empty for `ERRORreport`) followed by the argument expressions as written, white space removed) -/",
+          "def argExprs : List (String × String × List String) := ["]
+    L.append(",\n".join(f'  ("{w}", "{c}", [{", ".join(chr(34) + esc(e) + chr(34) for e in ex)}])' for w, c, ex in two) + "]")
     L += ["", "end StepModel.Generated.ReportSites", ""]
     return {"ReportSites.lean": "\n".join(L)}
